@@ -395,3 +395,20 @@ def water_mark_table(k: Kit, rule: str) -> None:
     rep.check(bad is None, rule, key(fi, 'water mark table'),
               f'{n} states: resume iff paused and buffered <= low, pause iff '
               'not paused and buffered > high', str(bad), fi.loc(fi.node))
+
+
+def share(k: Kit, rule: str, text: str, fn, keep=None, floor: int = 1,
+          args: tuple = ()) -> None:
+    """Run another property's rule function under this property's rule id
+    (optionally keeping only the obligations whose key satisfies `keep`)."""
+    rep = k.rep
+    rep.rule(rule, text)
+    before = len(rep.obligations)
+    fn(k, *args)
+    if keep is not None:
+        kept = [o for o in rep.obligations[before:] if keep(o.key)]
+        del rep.obligations[before:]
+        rep.obligations.extend(kept)
+    rep.floor(rule, 'shared rows', len(rep.obligations) - before, floor)
+    for o in rep.obligations[before:]:
+        o.rule = rule
